@@ -596,3 +596,8 @@ def _witness_cancel(ctx):
 
 
 WITNESSES = {SIG_CANCEL: _witness_cancel}
+
+
+# translator tie: the arithmetic of total()/remaining() is re-read from /repo's AST on every run, translated to Lean
+# terms over ℝ and proved equal to what the model computes (DPL/Generated/AccountantFormulas.lean; shared with C04)
+from .c04 import generate  # noqa: E402,F401
